@@ -16,7 +16,8 @@ QUICK = [(65, 'int'), (127, 'int'), (100, 'unsigned'), (128, 'int'), (129, 'int'
          (256, 'unsigned'), (300, 'std::uint8_t'), (511, 'std::int16_t'), (1000, 'int'), (1024, 'std::uint16_t'), (2000, 'std::uint8_t'), (2048, 'unsigned'),
          (2048, 'std::uint8_t'), (2047, 'std::int8_t'),  # 256 limbs: Karatsuba with a power-of-two limb count
          (1056, 'std::uint8_t'), (8192, 'unsigned')]  # 132 limbs -> 66 -> 33 (no odd count above the 48-limb base case); 256 32-bit limbs
-MORE = [(200, 'std::uint64_t'), (512, 'std::int64_t'), (1088, 'std::int8_t'), (2000, 'std::int64_t'), (1000, 'std::uint8_t'), (129, 'std::uint16_t'),
+MORE = [(1120, 'std::uint8_t'), (1184, 'std::int8_t'), (1504, 'std::uint8_t'), (1280, 'std::uint8_t'),  # Karatsuba sizes: 140, 148, 188, 160 limbs
+        (200, 'std::uint64_t'), (512, 'std::int64_t'), (1088, 'std::int8_t'), (2000, 'std::int64_t'), (1000, 'std::uint8_t'), (129, 'std::uint16_t'),
         (4096, 'unsigned'), (130, 'std::uint8_t'), (193, 'std::int64_t'), (320, 'std::uint16_t'), (192, 'std::uint64_t'), (1100, 'std::uint8_t')]
 
 
@@ -39,8 +40,7 @@ def plan(tier, seed):
         ('Sw_w_u8', 'c10::Wide<E, std::uint8_t, false, false>', 'sweep|E|std::uint8_t', 128, 259),
         ('Sw_w_i16', 'c10::Wide<E, std::int16_t, false, false>', 'sweep|E|std::int16_t', 128, 259),
     ]
-    if not quick:  # Karatsuba sizes with 8-bit limbs: every limb count from 129 to 200
-        sweeps.append(('Sw_kara_u8', 'c10::Wide<8 * E, std::uint8_t, false, false>', 'sweep|8E|std::uint8_t', 129, 200))
+    # (a sweep over every 8-bit limb count 129..200 is not possible: uintwide_t only accepts widths of the form 2^k * j, j <= 64)
     units += sweep_units('C10', 'props/C10.h', sweeps, cases, nunits=16, keep=(lambda i, r: i % 3 == 0) if quick else None, words=64)
     from .common import with_fuzz
     return with_fuzz(dict(units=units, rule=RULE, assumptions=['values are moved in and out of wide types through the limb array (uintwide_t::representation), never through CNL arithmetic']), 'C10', 'props/C10.h', [regs[3], regs[5], regs[6], regs[9]], tier, 40000, 2000000, max_len=514, chunk=1)
